@@ -280,7 +280,7 @@ impl Run {
                     cfg.cases = per_worker as u32;
                     cfg.failure_persistence = None;
                     cfg.rng_seed = RngSeed::Fixed(wseed);
-                    cfg.max_shrink_iters = 20_000;
+                    cfg.max_shrink_iters = 4_000;
                     cfg.max_global_rejects = 1_000_000;
                     cfg.verbose = 0;
                     let mut runner = TestRunner::new(cfg);
@@ -606,4 +606,58 @@ pub fn truncate_json(v: &mut Value) {
 /// helper for property modules: deserialize a replay case
 pub fn case_from<C: DeserializeOwned>(v: &Value) -> Option<C> {
     serde_json::from_value(v.clone()).ok()
+}
+
+/// Deterministic sampling of a strategy inside an enumeration (all randomness stays in proptest's
+/// generators); a failing sample is shrunk with proptest's simplify/complicate protocol.
+pub struct Sampler {
+    runner: TestRunner,
+}
+impl Sampler {
+    pub fn new(seed: u64) -> Self {
+        let mut cfg = Config::default();
+        cfg.failure_persistence = None;
+        cfg.rng_seed = RngSeed::Fixed(seed);
+        Sampler { runner: TestRunner::new(cfg) }
+    }
+    pub fn sample<C: Debug, S: Strategy<Value = C>>(&mut self, strat: &S) -> C {
+        use proptest::strategy::ValueTree;
+        strat.new_tree(&mut self.runner).expect("strategy without rejection").current()
+    }
+    /// sample one case and check it; on failure return the shrunk case and its violation
+    pub fn check<C: Debug, S: Strategy<Value = C>>(&mut self, strat: &S, check: &dyn Fn(&C) -> CheckResult) -> Result<(C, Pass), (C, Violation)> {
+        use proptest::strategy::ValueTree;
+        let mut tree = strat.new_tree(&mut self.runner).expect("strategy without rejection");
+        let first = tree.current();
+        match check(&first) {
+            Ok(p) => Ok((first, p)),
+            Err(v0) => {
+                let mut best = (first, v0);
+                let mut iters = 0;
+                if tree.simplify() {
+                    loop {
+                        iters += 1;
+                        if iters > 5000 {
+                            break;
+                        }
+                        let cur = tree.current();
+                        match check(&cur) {
+                            Err(v) => {
+                                best = (cur, v);
+                                if !tree.simplify() {
+                                    break;
+                                }
+                            }
+                            Ok(_) => {
+                                if !tree.complicate() {
+                                    break;
+                                }
+                            }
+                        }
+                    }
+                }
+                Err(best)
+            }
+        }
+    }
 }
